@@ -69,6 +69,25 @@ func SharedOp(r *Rng, s *jsonapi.Schema, ts []stype, o *Out) string {
 		return "New(defaults)+marshal"
 	}
 	st := ts[r.IntN(len(ts))]
+	if !st.backed && r.chance(1, 10) {
+		// a request-local collection typed with what GetType returned (a copy of the Type
+		// value, sharing its maps with the schema): adding a resource whose fields the type
+		// already has - one of them declared with another kind - has nothing to add
+		t := s.GetType(st.typ.Name)
+		sc := &jsonapi.SoftCollection{}
+		sc.SetType(&t)
+		vt := stripNewFunc(st.typ).Copy()
+		for k, a := range vt.Attrs {
+			a.Type = 1 + a.Type%14
+			vt.Attrs[k] = a
+			break
+		}
+		res := &jsonapi.SoftResource{Type: &vt}
+		res.SetID("v")
+		sc.Add(res)
+		_ = sc.Len()
+		return "SoftCollection(GetType).Add"
+	}
 	if r.chance(1, 10) {
 		// a resource created from the type AS STORED in the schema (Type.New has a pointer
 		// receiver): allowed for a type whose two maps are allocated - creating and using the
